@@ -139,7 +139,7 @@ pub fn run(reg: &dyn Registry, ctx: &Ctx) -> Outcome {
             // non-linear but the relations above found nothing and the matrices agree: undecided
             ctx.machinery(&format!("{}: step/jump not bound to the extracted linear model ({} replay mismatches) and no direct witness found", info.name, t.mismatch_count + j.mismatch_count + l.mismatch_count));
         }
-        if *ty as *const _ == types[0] as *const _ {
+        if info.name == types[0].info().name {
             ctx.sample(json!({"type": info.name, "fact": format!("jump == T^(2^{})", n/2), "jump_matrix_digest": format!("{:016x}", j.ex.mat.digest()), "power_digest": format!("{:016x}", tj.digest())}));
         }
         let teeth = lin::perturbation_teeth(*ty, &j.ex);
